@@ -56,7 +56,7 @@ def run(tier="quick"):
         return dict(available=False, reason=err[-400:]), []
     shapes = SHAPES_THOROUGH if tier == "thorough" else SHAPES_QUICK
     env = dict(os.environ, TSAN_OPTIONS="halt_on_error=0 exitcode=0 history_size=7")
-    viol, nproc, nrep = {}, 0, 0
+    viol, nproc, nrep, unattributed = {}, 0, 0, 0
     t0 = time.time()
     for copies, repeat, procs in shapes:
         for _ in range(procs):
@@ -70,12 +70,16 @@ def run(tier="quick"):
                     continue
                 nrep += 1
                 fr = frames(rep)
-                where = fr[0][1] if fr else "outside-the-crates-under-test"
-                fn = re.sub(r"[^A-Za-z0-9_:<>]", "", fr[0][0])[:60] if fr else "?"
+                if not fr:
+                    # no frame in the crates under test: not attributed to them, listed in the evidence only
+                    unattributed += 1
+                    continue
+                where = fr[0][1]
+                fn = re.sub(r"[^A-Za-z0-9_:<>]", "", fr[0][0])[:60]
                 sig = "c18:tsan:data-race:%s:%s" % (where, fn)
                 v = viol.setdefault(sig, dict(sig=sig, detail="ThreadSanitizer reports a data race between free-running threads: " + " <- ".join("%s (%s)" % f for f in fr[:4]), replay=dict(mode="tsan", copies=copies, repeat=repeat), count=0))
                 v["count"] += 1
-    info = dict(available=True, kind="RACE DETECTOR (supplement, free-running threads, not coverage)", build_s=round(secs, 1), cold_processes=nproc, shapes=[dict(copies=c, repeat=r, processes=n) for c, r, n in shapes], reports=nrep, wall_s=round(time.time() - t0, 1))
+    info = dict(available=True, kind="RACE DETECTOR (supplement, free-running threads, not coverage)", build_s=round(secs, 1), cold_processes=nproc, shapes=[dict(copies=c, repeat=r, processes=n) for c, r, n in shapes], reports=nrep, reports_without_a_frame_in_the_crates_under_test=unattributed, wall_s=round(time.time() - t0, 1))
     return info, list(viol.values())
 
 
